@@ -202,6 +202,124 @@ func condString(e ast.Expr) string {
 	return fmt.Sprintf("%T", e)
 }
 
+
+
+// guardFuncs: functions whose branch conditions the model follows.  For each, one `guards` site
+// lists every if-condition in source order with LOCAL identifiers blanked (`_`): comparison
+// operators, constants, called functions, selector names and the order of the branches are kept, so
+// renaming a local does not change the fact but `<` -> `<=`, a swapped branch or a new guard does.
+var guardFuncs = map[string]bool{
+	"IntrinsicGas": true, "contractExecutor.decodeContractData": true, "contractExecutor.Execute": true, "contractExecutor.BeforeExecute": true,
+	"preCheckContractFee": true, "MinerManager.AddMiner": true, "MinerManager.AddStake": true, "MinerManager.RemoveMiner": true,
+	"MinerManager.UpdateMiner": true, "MinerManager.GetMinerById": true, "MinerManager.GetMinerIdByAccount": true, "MinerManager.GetValidatorsStake": true,
+	"MinerManager.GetProposerTotalStakeWithDetail": true, "MinerIterator.Current": true,
+	"minerApplyExecutor.Execute": true, "minerAddExecutor.Execute": true, "minerChangeAccountExecutor.Execute": true, "minerRefundExecutor.Execute": true,
+	"RefundManager.GetRefundStake": true, "RefundManager.getRefundHeight": true, "RefundManager.Add": true, "RefundManager.CheckAndMove": true,
+	"validateNonce": true, "baseFeeExecutor.BeforeExecute": true, "TxPool.ProcessFee": true, "transferBalance": true, "ChangeAssets": true,
+	"operatorExecutor.transfer": true, "deductGasFee": true, "VMExecutor.calcDifficulty": true, "VMExecutor.after": true, "VMExecutor.Execute": true,
+	"Transactions.Less": true, "calcReceiptsTree": true, "RewardCalculator.CalculateReward": true, "RewardCalculator.calculateRewardPerBlock": true,
+	"RewardCalculator.NextRewardHeight": true, "addReward": true, "RefundInfoList.AddRefundInfo": true, "MinerManager.RemoveUnusedValidator": true,
+	"removeUnusedValidator": true,
+}
+
+func normCond(info *types.Info, e ast.Expr) string {
+	switch x := e.(type) {
+	case *ast.BinaryExpr:
+		return normCond(info, x.X) + " " + x.Op.String() + " " + normCond(info, x.Y)
+	case *ast.ParenExpr:
+		return "(" + normCond(info, x.X) + ")"
+	case *ast.UnaryExpr:
+		return x.Op.String() + normCond(info, x.X)
+	case *ast.BasicLit:
+		return strings.ReplaceAll(x.Value, "\"", "'")
+	case *ast.Ident:
+		if obj := info.Uses[x]; obj != nil {
+			if v, ok := obj.(*types.Var); ok && !v.IsField() && (v.Pkg() == nil || v.Parent() != v.Pkg().Scope()) {
+				return "_" // local variable / parameter / receiver
+			}
+		}
+		return x.Name
+	case *ast.SelectorExpr:
+		return normCond(info, x.X) + "." + x.Sel.Name
+	case *ast.CallExpr:
+		var args []string
+		for _, a := range x.Args {
+			args = append(args, normCond(info, a))
+		}
+		return normCond(info, x.Fun) + "(" + strings.Join(args, ",") + ")"
+	case *ast.IndexExpr:
+		return normCond(info, x.X) + "[" + normCond(info, x.Index) + "]"
+	case *ast.StarExpr:
+		return "*" + normCond(info, x.X)
+	case *ast.CompositeLit:
+		return "lit"
+	case *ast.TypeAssertExpr:
+		return normCond(info, x.X) + ".(type)"
+	}
+	return fmt.Sprintf("%T", e)
+}
+
+func guardsOf(info *types.Info, body *ast.BlockStmt) string {
+	var conds []string
+	ast.Inspect(body, func(n ast.Node) bool {
+		if ifs, ok := n.(*ast.IfStmt); ok {
+			conds = append(conds, normCond(info, ifs.Cond))
+		}
+		return true
+	})
+	return strings.Join(conds, " | ")
+}
+
+// constants the model computes with, re-read from the source on every run: Go name -> (file, lean name).
+// The value is the first integer literal of the initialiser (`21000`, `uint64(400)`, `big.NewInt(1000000000)`).
+var wantedConsts = []struct{ file, goName, lean string }{
+	{"src/vm/param.go", "TxGas", "cTxGas"},
+	{"src/vm/param.go", "TxGasContractCreation", "cTxGasContractCreation"},
+	{"src/vm/param.go", "TxDataZeroGas", "cTxDataZeroGas"},
+	{"src/vm/param.go", "TxDataNonZeroGasEIP2028", "cTxDataNonZeroGas"},
+	{"src/common/constant.go", "GasMagnification", "cGasMagnification"},
+	{"src/executor/contract_executor.go", "defaultGasLimit", "cDefaultGasLimit"},
+	{"src/executor/contract_executor.go", "p017defaultGasLimit", "cP017GasLimit"},
+	{"src/executor/contract_executor.go", "p026defaultGasLimit", "cP026GasLimit"},
+	{"src/executor/contract_executor.go", "defaultGasPrice", "cGasPrice"},
+	{"src/common/constant_economy.go", "ValidatorStake", "cValidatorStake"},
+	{"src/common/constant_economy.go", "ProposerStake", "cProposerStake"},
+	{"src/common/constant_economy.go", "HeightAfterStake", "cHeightAfterStake"},
+	{"src/service/refund_manager.go", "refundHeight", "cRefundHeight"},
+}
+
+func extractConsts(fset *token.FileSet) string {
+	var sb strings.Builder
+	for _, w := range wantedConsts {
+		f, err := parser.ParseFile(fset, w.file, nil, 0)
+		val := ""
+		if err == nil {
+			ast.Inspect(f, func(n ast.Node) bool {
+				vs, ok := n.(*ast.ValueSpec)
+				if !ok {
+					return true
+				}
+				for i, nm := range vs.Names {
+					if nm.Name == w.goName && i < len(vs.Values) && val == "" {
+						ast.Inspect(vs.Values[i], func(m ast.Node) bool {
+							if bl, ok := m.(*ast.BasicLit); ok && bl.Kind == token.INT && val == "" {
+								val = strings.ReplaceAll(bl.Value, "_", "")
+							}
+							return true
+						})
+					}
+				}
+				return true
+			})
+		}
+		if val == "" {
+			val = "0 /- NOT FOUND in " + w.file + " -/"
+		}
+		fmt.Fprintf(&sb, "/-- `%s` (%s) -/\ndef %s : Nat := %s\n", w.goName, w.file, w.lean, val)
+	}
+	return sb.String()
+}
+
 // clockContext says what confines a clock reading: an enclosing condition that mentions the
 // "casting" situation, and/or being an argument of a logging call.
 func clockContext(stack []ast.Node) string {
@@ -570,6 +688,9 @@ func main() {
 					if fd.Recv != nil && len(fd.Recv.List) > 0 {
 						fn = strings.TrimPrefix(exprString(fset, fd.Recv.List[0].Type), "*") + "." + fn
 					}
+					if guardFuncs[fn] {
+						sites = append(sites, site{"guards", rel, fn, guardsOf(info, fd.Body)})
+					}
 					if rel == "src/core/vmexecutor.go" && fn == "VMExecutor.Execute" {
 						sites = append(sites, site{"order", rel, fn, callOrder(fd.Body)})
 					}
@@ -685,6 +806,7 @@ func main() {
 		}
 		fmt.Fprintf(&sb, "/-- validator ids hard-coded in core.%s (as numbers) -/\ndef %s : List Nat := [%s]\n\n", nm.fn, nm.def, strings.Join(nums, ", "))
 	}
-	sb.WriteString("end Rangers.Generated.NondetSites\n")
+	sb.WriteString(extractConsts(fset))
+	sb.WriteString("\nend Rangers.Generated.NondetSites\n")
 	fmt.Print(sb.String())
 }
